@@ -57,6 +57,12 @@ def enqueue (s : St) (a : Act) : St × List Cmd :=
     let s := { s with sysNames := s.sysNames ++ [e], info := upd s.info e { defn := d, once := some trigs },
                       tokens := s.tokens ++ [(e, trigs)] }
     (s, [.register trigs e .revokable, .insertOnce e])
+  | .onceFn d trigs =>
+    -- `once` with a zero-sized function item: the same wrapper, nothing to drop with it
+    let (e, s) := s.fresh
+    let s := { s with sysNames := s.sysNames ++ [e], info := upd s.info e { defn := d, once := some trigs, zst := true },
+                      tokens := s.tokens ++ [(e, trigs)] }
+    (s, [.register trigs e .revokable, .insertOnce e])
   | .revoke sys trigs => (s, [.revoke sys trigs])
   | .run sys => (s, [.run sys])
   | .sysEvent sys ty pid =>
@@ -133,7 +139,7 @@ def applyCmd (s : St) (c : Cmd) : St :=
     if s.alive sys ∧ s.storage sys = none then { s with storage := upd s.storage sys (some true) } else s
   | .insertOnce sys =>
     if s.alive sys ∧ s.storage sys = none then { s with storage := upd s.storage sys (some true) }
-    else s.emit (.canary sys)
+    else s.emit (canaryEv s sys)
   | .spawnData d x => if s.alive d then { s with data := upd s.data d (some x) } else s.emit (.dropPayload x.pid)
   | .broadcast ty pid =>
     let hs := s.tbl .bc ty
@@ -287,11 +293,11 @@ def doReinsert (s : St) (sys idx : Nat) : St :=
     (({ s with storage := upd s.storage sys (some true) } : St).emit (.reinserted sys)).push [.poll, .replayTake sys idx]
   | true, none =>
     let s := s.emit (.dropped sys)
-    let s := if (s.info sys).once.isSome then s else s.emit (.canary sys)
+    let s := if (s.info sys).once.isSome then s else s.emit (canaryEv s sys)
     s.push [.despawnWork [(sys, false)], .gc, .poll, .replayTake sys idx]
   | false, _ =>
     let s := s.emit (.dropped sys)
-    let s := if (s.info sys).once.isSome then s else s.emit (.canary sys)
+    let s := if (s.info sys).once.isSome then s else s.emit (canaryEv s sys)
     s.push [.gc, .poll, .replayTake sys idx]
 
 def doReplayTake (s : St) (sys idx : Nat) : St := ({ s with buffered := [] }).push [.replayLoop sys s.buffered [] idx]
@@ -340,7 +346,7 @@ def runFrame (p : Prog) (h : Hist) (s : St) : Frame → St
   | .topActs t i => doTopActs h s t i
   | .cleanup k => cleanupK s k
   | .onceTail sys => doOnceTail s sys
-  | .dropCallback sys => s.emit (.canary sys)
+  | .dropCallback sys => s.emit (canaryEv s sys)
   | .runnerStart sys k => doRunnerStart s sys k
   | .runnerLookup sys k idx => doRunnerLookup s sys k idx
   | .afterBody sys idx => doAfterBody s sys idx
